@@ -358,6 +358,8 @@ def rules(rep, facts):
     r4_container_typing(rep, facts)
     r6_option_mirror(rep, facts)
     r12_variant_tag(rep, facts)
+    from .rules_c13 import r2_tunnel
+    r2_tunnel(rep, facts, rid='C07/R13')
     if 'toml' in facts.crates:
         from .rules_c13 import r7_value_passes
         r7_value_passes(rep, facts, rid='C07/R9')
